@@ -53,6 +53,20 @@ package secp256k1
 //@   using powsq_N(old(val(a)), i)
 //@   modifies s.m
 //@
+//@ func (*Scalar).Sum
+//@   props C02 C18
+//@   ensures val(s) == old(vsum(vec, len(vec))) && result == s
+//@   loop 0 invariant 0 - 1 <= rangeindex && rangeindex + 1 <= len(vec) && val(sum) == vsum(vec, rangeindex + 1)
+//@   loop 0 modifies sum.m
+//@   modifies s.m
+//@
+//@ func (*Scalar).Product
+//@   props C02 C18
+//@   ensures val(s) == old(vprod(vec, len(vec))) && result == s
+//@   loop 0 invariant 0 - 1 <= rangeindex && rangeindex + 1 <= len(vec) && val(product) == vprod(vec, rangeindex + 1)
+//@   loop 0 modifies product.m
+//@   modifies s.m
+//@
 //@ func (*Scalar).Set
 //@   props C02 C18
 //@   ensures val(s) == old(val(a)) && same(s.m, old(a.m)) && result == s
